@@ -35,8 +35,9 @@ SIZES = {
     "thorough": {"step": [400, 200, 120, 150, 60, 100, 40, 12], "J": [300, 150, 60, 100, 30, 50, 20, 6],
                  "enroll": [2916, 972, 2000, 3000, 2000, 3000, 2000, 2000], "export": [40, 20, 12, 20, 8, 12, 6, 2]},
 }
-# shapes on which J after the three chained updates of EnrollIter stays within 32 bits
-ENROLL_J_SHAPES = {(1, 1, True), (1, 1, False), (1, 2, False), (2, 1, False)}
+# shapes on which J after the three chained updates of EnrollIter stays within 32 bits (established by running
+# the complete configuration space of each: 2916 + 972 + 11664 configurations)
+ENROLL_J_SHAPES = {(1, 1, True), (1, 1, False), (1, 2, False)}
 LAT_EXPORT_QUICK = [F(-1), F(0), F(1, 2), F(2)]
 MAX_REPORTED = 4      # replay files kept per clause
 
@@ -64,21 +65,27 @@ def run(ck):
 
     # ---------------- M1
     step = [fm.random_config(rng, C, H, j) for (C, H, j), n in zip(SHAPES, sizes["step"]) for _ in range(n)]
+    # (the large runs go without -coverage: it switches off TLC's caching of LET definitions, which the
+    # rational arithmetic lives on - 20 times slower; per-action counts come from a small run of their own)
     fm.model_run(ck, "steps", step, invariants=["PrecisionPositive", "BlockIsArgmax"],
-                 properties=["AffineInvariant"], coverage=cov)
+                 properties=["AffineInvariant"])
     jl = [k for (C, H, j), n in zip(SHAPES, sizes["J"]) for k in fm.fixed_configs(C, H, j, n)]
-    fm.model_run(ck, "steps-J", jl, invariants=["PrecisionPositive", "BlockIsArgmax"], properties=["JNonDecreasing"],
-                 coverage=cov)
+    fm.model_run(ck, "steps-J", jl, invariants=["PrecisionPositive", "BlockIsArgmax"], properties=["JNonDecreasing"])
     en = [k for (C, H, j), n in zip(SHAPES, sizes["enroll"])
           for k in fm.fixed_configs(C, H, j, n, enroll="J" if (C, H, j) in ENROLL_J_SHAPES else "yes", salt=11)]
     r_en = fm.model_run(ck, "enroll-from-zero", en, lat=[F(0)], invariants=["PrecisionPositive", "EnrollIsBlockwise"],
-                        properties=["JNonDecreasingEnroll"], export=True, coverage=cov)
+                        properties=["JNonDecreasingEnroll"], export=True)
     # the deviating variant must be refuted, by the stationarity clause and by the ascent clause
     dv = fm.fixed_configs(1, 1, True, 12, salt=3) + fm.fixed_configs(2, 1, True, 2, salt=3)
     fm.model_run(ck, "deviation:%s:BlockIsArgmax" % fm.DEVIATION, dv, dev=[fm.DEVIATION], invariants=["BlockIsArgmax"],
                  properties=[], expect_violation=True)
     fm.model_run(ck, "deviation:%s:JNonDecreasing" % fm.DEVIATION, dv, dev=[fm.DEVIATION], invariants=[],
                  properties=["JNonDecreasing"], expect_violation=True)
+    if cov:
+        fm.model_run(ck, "action-coverage", fm.fixed_configs(1, 1, True, 6, enroll="J", salt=3)
+                     + fm.fixed_configs(1, 2, False, 6, enroll="J", salt=3),
+                     invariants=["PrecisionPositive", "BlockIsArgmax", "EnrollIsBlockwise"],
+                     properties=["JNonDecreasing", "JNonDecreasingEnroll", "AffineInvariant"], coverage=True)
     # edges for the replay: a seeded part of the step run's configurations
     ex, i = [], 0
     for n_step, n_ex in zip(sizes["step"], sizes["export"]):
